@@ -222,6 +222,26 @@ pub fn build_inputs(a: &Args, rng: &mut Rng) -> Vec<RunInput> {
                 v.push(RunInput { text: p, front: fr.into(), wrap: 0, cfg: "all".into(), dialect: i % 4, src: "prefix" });
             }
         }
+        // editing families: every word of every sentence at the start of a document
+        let nf = a.num("family-sentences", 200) as usize;
+        let fstart = rng.below(corpus.len());
+        for i in 0..nf.min(corpus.len()) {
+            let t = &corpus[(fstart + i) % corpus.len()];
+            for p in inputs::family(t) {
+                let fr = match rng.below(6) { 0 => "markdown", 1 => "typst", 2 => "html", _ => "plain" };
+                v.push(RunInput { text: p.clone(), front: fr.into(), wrap: 0, cfg: "all".into(), dialect: i % 4, src: "family" });
+                if rng.chance(1, 8) {
+                    // the same text as the body of a block comment with an empty first line
+                    let lang = *rng.pick(&["c", "rust", "typescript", "python", "java", "go", "lua"][..]);
+                    let body = match lang {
+                        "python" => format!("#\n# {}\n", p.replace('\n', "\n# ")),
+                        "lua" => format!("--\n-- {}\n", p.replace('\n', "\n-- ")),
+                        _ => format!("/*\n * {}\n */\n", p.replace('\n', "\n * ")),
+                    };
+                    v.push(RunInput { text: body, front: lang.into(), wrap: 0, cfg: "all".into(), dialect: 0, src: "family" });
+                }
+            }
+        }
         for _ in 0..a.num("docs", 2000) {
             let prose = inputs::compose(&corpus, rng);
             let fr = rng.pick(&fronts[..]).clone();
